@@ -72,7 +72,7 @@ class P04(SessionPlan):
         return ["profiles x CONNACK return codes 0..255 x session-present x keepalive {0,7} x protocol level {3,4} x transport model"]
 
     def required_counters(self, tier):
-        return {"accepted": 100, "refused": 1000, "no_connack": 50, "losses": 500, "reconnect_after_refusal": 20}
+        return {"accepted": 100, "refused": 1000, "no_connack": 50, "losses": 500, "reconnect_after_refusal": 20, "connect_on_lost_protocol": 20}
 
     def extra_cases(self, tier, seed):
         for prof in ("pub", "sub", "pubsub"):
@@ -85,7 +85,8 @@ class P04(SessionPlan):
                     yield C.SessionCase("handshake-matrix", cfg, steps=st)
         alpha = [("connack", 0, 0, False), ("connack", 0, 0, True), ("connack", 0, 5, False), ("connack", 0, 200, True),
                  ("adv", 11), ("tick",), ("lose", 0, "done"), ("lose", 0, "lost"), ("pub", 0, 1), ("pingresp", 0),
-                 ("connect", 0, True, 0, 4), ("connect", 0, False, 4, 3)]     # again, e.g. on the protocol a refusal left idle
+                 ("connect", 0, True, 0, 4), ("connect", 0, False, 4, 3),     # again, e.g. on the protocol a refusal left idle
+                 ("connect_stale", 0, True, 0, 4), ("connect_stale", 0, True, 30, 4)]   # ... or a loss left idle
         depth = 3 if tier == "quick" else 4
         for ondisc, rec, ref in ((True, False, None), (False, False, None), (True, True, None), (True, False, "connect"), (True, False, "publish")):
             cs = [Cfg(profile=p, model=m, ondisc=ondisc, re_connect_on_disc=rec, re_on_refuse=ref)
@@ -251,6 +252,12 @@ class P09(SessionPlan):
         for lvl in (3, 4):
             for x in sweep_cases("sweep", cfgs(("pubsub",), ("sync",)), connected(clean=False, win=2, lvl=lvl), alpha, depth):
                 yield x
+        # the identifier counter wraps while exchanges sit in every stage
+        stages = connected(clean=False, win=16) + [("pub", 0, 2), ("ack", 0, "PUBREC", "old"), ("pub", 0, 2), ("pub", 0, 2), ("pub", 0, 2)]
+        for place in range(65528, 65536):
+            for tail in ([("pub", 0, 2)] * 8, [("pub", 0, 1), ("ack", 0, "PUBACK", "new")] * 6 + [("pub", 0, 2)] * 3,
+                         reconnect(0, False) + [("pub", 0, 2)] * 6):
+                yield C.SessionCase("wrap-in-exchange", Cfg(profile="pubsub"), steps=stages + [("placeid", place)] + tail)
 
 
 # ------------------------------------------------------------------------------ C10
@@ -469,6 +476,11 @@ class P15(SessionPlan):
                     if p % 50 == 49:
                         st += [("sub", 0, "str", 1, 0), ("ack", 0, "SUBACK", "old")]
                 yield C.SessionCase("keepalive-matrix/" + off, cfg, steps=st)
+            if k < 1000:
+                for k1, k2 in ((k, 0), (0, k), (k, k + 3)):
+                    yield C.SessionCase("keepalive-matrix/after-refusal", cfg,
+                                        steps=[("build", 0), ("connect", 0, True, k1, 4), ("connack", 0, 4, False), ("connect", 0, True, k2, 4),
+                                               ("connack", 0, 0, False), ("adv", (k2 or k1) * 1.5), ("pingresp", 0), ("adv", (k2 or k1) * 2.5)])
             yield C.SessionCase("keepalive-matrix/k0", cfg, steps=[("build", 0), ("connect", 0, True, 0, 4), ("connack", 0, 0, False),
                                                                    ("adv", 1000), ("pub", 0, 1), ("adv", 100000)])
             yield C.SessionCase("keepalive-matrix/reconnect", cfg, steps=pre + [("adv", k * 2.5 if k < 1000 else 10), ("lose", 0, "lost"), ("adv", k * 3),
@@ -529,7 +541,7 @@ class P16(SessionPlan):
     n_quick = 8000
     rule = ("inputs = all byte strings up to length 3 (quick) / 4 (thorough) over a 14-symbol alphabet, every valid broker packet with each byte replaced by "
             "{00,01,7F,80,FF,^01,^80}, truncated at every length and extended, every first byte 0..255 with all bodies up to length 2 over the alphabet, "
-            "and seeded random streams; each injected into one of 14 contexts (profile x idle/connecting/connected, requests of every kind pending, keepalive on/off, "
+            "and seeded random streams; each injected into one of 16 contexts (profile x idle/connecting/connected, requests of every kind pending, keepalive on/off, "
             "both transports) chosen round-robin (thorough: every context); plus seeded walks; non-trivial = an inbound step was judged; distinct by (config, executed step list)")
 
     def required_counters(self, tier):
@@ -542,6 +554,8 @@ class P16(SessionPlan):
         for prof in ("pubsub", "pub", "sub"):
             for model in MODELS:
                 out.append((Cfg(profile=prof, model=model), busy))
+        out.append((Cfg(profile="pubsub", model="sync"), [("placeid", 255)] + busy))      # identifiers 256.. pending
+        out.append((Cfg(profile="pubsub", model="tcp"), [("placeid", 0x3FFF)] + busy))    # identifiers 0x4000.. pending
         out.append((Cfg(profile="pubsub", model="tcp"), [("build", 0)]))
         out.append((Cfg(profile="pubsub", model="sync"), [("build", 0), ("connect", 0, True, 0, 4), ("pub", 0, 1)]))
         out.append((Cfg(profile="sub", model="tcp"), [("build", 0), ("connect", 0, False, 0, 3)]))
@@ -558,7 +572,13 @@ class P16(SessionPlan):
             targeted = blob[:1] == b"T" and len(blob) > 2 and blob[1] >> 4 in (4, 5, 6, 7, 9, 11)
             if targeted:
                 blob = blob[1:]
-            which = range(len(ctxs)) if (targeted or (tier == "thorough" and len(blob) <= 3)) else [(n + seed) % len(ctxs)]
+            ackish = 2 <= len(blob) <= 3 and blob[0] in (0x40, 0x50, 0x62, 0x70, 0x90, 0xB0)
+            if targeted or (tier == "thorough" and len(blob) <= 3):
+                which = range(len(ctxs))
+            elif ackish:
+                which = range(8)            # every context with requests pending
+            else:
+                which = [(n + seed) % len(ctxs)]
             for ci in which:
                 cfg, pre = ctxs[ci]
                 yield C.SessionCase("hostile/ctx%d" % ci, cfg, steps=list(pre) + [("raw", 0, blob)])
@@ -592,10 +612,12 @@ class P17(SessionPlan):
                  [("pub", 0, 2), ("pub", 0, 1), ("ack", 0, "PUBACK", "new")] * 6,
                  reconnect(0, False) + [("pub", 0, 1)] * 10,
                  [("build", 1), ("connect", 1, True, 0, 4), ("connack", 1, 0, False), ("setwin", 1, 8)] + [("pub", 1, 1), ("sub", 1, "str", 1, 1)] * 6]
+        # second state: publish window empty (its only QoS 2 message has been PUBREC'd) while a message is still held back
+        hold2 = connected(clean=False, win=1) + [("pub", 0, 2), ("pub", 0, 1), ("pub", 0, 2), ("ack", 0, "PUBREC", "old")]
         for place in range(65526, 65536):
             for tail in tails:
-                for prof in ("pubsub",):
-                    yield C.SessionCase("wrap-placed", Cfg(profile=prof), steps=hold + [("placeid", place)] + tail)
+                for h in (hold, hold2):
+                    yield C.SessionCase("wrap-placed", Cfg(profile="pubsub"), steps=h + [("placeid", place)] + tail)
         if tier == "thorough":
             st = connected(clean=False, win=2) + [("pub", 0, 2), ("ack", 0, "PUBREC", "old"), ("sub", 0, "str", 1, 1), ("setwin", 0, 4)]
             st += [("pub", 0, 1), ("ack", 0, "PUBACK", "new")] * 70000
